@@ -214,6 +214,27 @@ static void observe(World &w, const char *tags) {
       } else if (!threw)
         vf::fail("C08,C01", "slot %d: at(%ld) with size %ld did not throw out_of_range", i, q, sz);
     }
+    {
+      // indices at the top of the size_type and at its sign boundary (a bounds check must not go through a narrower or
+      // a signed type), through both overloads
+      typedef typename V::size_type VST;
+      typedef typename std::make_unsigned<VST>::type UST;
+      const VST mx = std::numeric_limits<VST>::max();
+      const VST probes[] = {mx, (VST)(mx - 1), (VST)(((UST)1 << (sizeof(VST) * 8 - 1)) - (std::is_signed<VST>::value ? 1 : 0)), (VST)(mx / 2 + 1)};
+      for (VST q : probes) {
+        if ((unsigned long long)q < (unsigned long long)sz) continue;
+        for (int form = 0; form < 2; ++form) {
+          bool threw = false;
+          try {
+            if (form == 0) (void)cv.at(q);
+            else (void)const_cast<V &>(cv).at(q);
+          } catch (const std::out_of_range &) {
+            threw = true;
+          }
+          if (!threw) vf::fail("C08,C01", "slot %d: %sat(%llu) with size %ld did not throw out_of_range", i, form ? "non-const " : "", (unsigned long long)q, sz);
+        }
+      }
+    }
     if (sz > 0) {
       if (E::val(cv.front()) != mv.front() || E::val(cv.back()) != mv.back()) vf::fail(tags, "slot %d: front()/back() wrong", i);
       if (cv.data() != &cv.front()) vf::fail(tags, "slot %d: data() != &front()", i);
